@@ -312,9 +312,12 @@ impl Expr {
                     if let Some(ty) = ty {
                         let ty = ty.disregard_distractors(false);
 
-                        if ty.is_optional().1.is_some() && fallback.is_optional().1.is_some() {
-                            // only check if neither of the operands is `nil`
-                            assert_eq!(ty, &fallback);
+                        // only check if neither of the operands is `nil`
+                        if ty.is_optional().1.is_some()
+                            && fallback.is_optional().1.is_some()
+                            && !ty.eq_complex(&fallback, flags)
+                        {
+                            bail!("the `or` portion of this unwrap must yield `{ty}`, but `{fallback}` was found")
                         }
 
                         ty.clone()
@@ -323,10 +326,9 @@ impl Expr {
                         fallback
                     }
                 } else {
-                    assert_eq!(
-                        primary.disregard_distractors(false),
-                        fallback.disregard_distractors(false)
-                    );
+                    if !primary.eq_complex(&fallback, flags) {
+                        bail!("the `or` portion of this unwrap must yield `{primary}`, but `{fallback}` was found")
+                    }
                     primary
                 })
             }
